@@ -154,6 +154,11 @@ func ntSeqName(seq []int) string {
 func ntReplay(hash nodetable.HashFn, seq []int) (problem string, key string) {
 	nt := nodetable.New(hash, ntKeyEqual)
 	defer nt.Close()
+	defer func() {
+		if r := recover(); r != nil {
+			problem = fmt.Sprintf("panic: %v (sequence: %s)", r, ntSeqName(seq))
+		}
+	}()
 	var m ntModel
 	for i, op := range seq {
 		if p := ntApply(nt, &m, op); p != "" {
@@ -280,6 +285,11 @@ func nlSetup() {
 
 // node list ops: 0..2 Add(node i) (enabled only if not in the list), 3..4 Remove("a"|"b"), 5 Remove("zz")
 func nlReplay(seq []int) (problem string, key string, enabled []int) {
+	defer func() {
+		if r := recover(); r != nil {
+			problem = fmt.Sprintf("panic: %v (sequence %v)", r, seq)
+		}
+	}()
 	nlSetup()
 	for _, n := range nlNodes {
 		n.SetLink(nil)
